@@ -97,11 +97,17 @@ WillSetup ==
      [op |-> "Call", h |-> 3, m |-> "SetRetain", args |-> <<TRUE>>],
      [op |-> "Call", h |-> 3, m |-> "SetResponseTopic", args |-> <<Txt(2)>>],
      [op |-> "Pub", h |-> 4, args |-> <<2, Txt(2), <<9>>>>],
-     [op |-> "Call", h |-> 4, m |-> "AddUserProp", args |-> <<Txt(1), Txt(1)>>] >>
+     [op |-> "Call", h |-> 4, m |-> "AddUserProp", args |-> <<Txt(1), Txt(1)>>],
+     \* fields a PUBLISH has but a will cannot carry: they stay behind when the message is attached as a will
+     [op |-> "Call", h |-> 4, m |-> "SetTopicAlias", args |-> <<7>>],
+     [op |-> "Call", h |-> 4, m |-> "AddSubscriptionID", args |-> <<<<0, 9>>>>],
+     [op |-> "Call", h |-> 4, m |-> "SetPacketID", args |-> <<11>>],
+     [op |-> "Call", h |-> 4, m |-> "SetDuplicate", args |-> <<TRUE>>] >>
 WillPool ==
   (2 :> [t |-> 3, o |-> PubObs(0, Txt(3), <<>>)])
   @@ (3 :> [t |-> 3, o |-> [PubObs(1, Txt(1), <<7, 8>>) EXCEPT !["Retain"] = TRUE, !["ResponseTopic"] = Txt(2)]])
-  @@ (4 :> [t |-> 3, o |-> [PubObs(2, Txt(2), <<9>>) EXCEPT !["UserProperties"] = << <<Txt(1), Txt(1)>> >>]])
+  @@ (4 :> [t |-> 3, o |-> [PubObs(2, Txt(2), <<9>>) EXCEPT !["UserProperties"] = << <<Txt(1), Txt(1)>> >>, !["TopicAlias"] = 7,
+                                                       !["SubscriptionIDs"] = << <<0, 9>> >>, !["PacketID"] = 11, !["Duplicate"] = TRUE]])
 
 RECURSIVE Fold(_, _)
 Fold(o, i) == IF i > Len(SetUp) THEN o
